@@ -656,7 +656,7 @@ fn gen_info(rng: &mut Rng) -> String {
 }
 
 pub fn generate(thorough: bool, rng: &mut Rng, ops: &mut Vec<String>, stats: &mut Stats) {
-    let (n_plan, n_info, n_hist) = if thorough { (12_000, 4000, 260) } else { (1200, 400, 22) };
+    let (n_plan, n_info, n_hist) = if thorough { (12_000, 4000, 260) } else { (1200, 400, 64) };
     for _ in 0..n_info {
         ops.push(gen_info(rng));
         stats.hit("op.info");
